@@ -394,7 +394,8 @@ _TOL_POOL = [0.1, 0.2, 0.3, -0.3, -0.1, 1e-7, 1e-9, 1e-12, 1e6, -1e6, 1e12, 1 / 
 
 
 def gen_fw_tol(rng, n=None):
-    """Data whose float sums are NOT exact; only the a-priori rounding bound of float summation is demanded."""
+    """Data whose float sums are in general NOT exact: the a-priori rounding bound of float summation is demanded, and exact
+    equality for every query that the canonical tree answers from exactly representable values only (judge 'shadow')."""
     n = n or rng.choice(FW_SIZES)
     mode = rng.choice(["values", "size"])
     vals = [rng.choice(_TOL_POOL) if rng.random() < 0.8 else round(rng.uniform(-1000, 1000), 3) for _ in range(n)]
@@ -412,18 +413,287 @@ def gen_fw_tol(rng, n=None):
         else:
             l, h = sorted((_idx(rng, n), _idx(rng, n)))
             ops.append(("range", l, h))
-    return mode, vals, ops, "tol"
+    return mode, vals, ops, "shadow"
+
+
+_HUGE = [2.0 ** 60, 2.0 ** 60, 2.0 ** 53, 2.0 ** 54, 2.0 ** 62 + 2.0 ** 10, 1e18, 3 * 2.0 ** 70, 2.0 ** 100, 2.0 ** 200, 2.0 ** 1000, float(2 ** 53 + 2), 1e22]
+_TINY = [1.0, 1.0, -3.0, 2.0, 0.5, 1, -1, 2.0 ** -20, 0.0, 7.0, -0.25, 3]
+
+
+def _cancel_queries(rng, n, marks):
+    """Queries around the positions of the huge entries: blocks that contain a cancelling pair completely, everything to the right
+    of it, single elements, the whole array."""
+    q = []
+    if marks and rng.random() < 0.8:
+        lo, hi = min(marks), max(marks)
+        l, r = rng.randint(0, lo), rng.randint(hi, n - 1)
+        q.append(("range", l, r))
+        q.append(("prefix", r))
+    r = rng.random()
+    if r < 0.3:
+        q.append(("prefix", _idx(rng, n)))
+    elif r < 0.5:
+        q.append(("range", 0, n - 1))
+    elif r < 0.7:
+        l = _idx(rng, n)
+        q.append(("range", l, l))
+    else:
+        l, h = sorted((_idx(rng, n), _idx(rng, n)))
+        q.append(("range", l, h))
+    return q
+
+
+def gen_fw_cancel(rng, n=None):
+    """X: huge exact floats that cancel exactly (H at one index, -H at another; H, H, -2H; introduced by the constructor or by updates, also
+    cancelled again by a later update), small exact values everywhere else, then tiny updates at / before / after the huge positions and
+    queries over blocks in which the huge entries cancel.  Float nodes holding a huge block sum absorb tiny deltas, nodes of wider blocks
+    do not: judge 'shadow' demands the exact plain-array sum wherever the canonical tree reads exactly representable values only."""
+    n = n or rng.choice([2, 2, 3, 4, 5, 8, 9, 17, 33, 64, 65])
+    mode = rng.choice(["values", "values", "size", "tuple"])
+    vals = [rng.choice([0.0, 1.0, -1.0, 0.5, 4.0, 3, 0, -2.0, 0.25, 0.0, 0.0]) for _ in range(n)]
+    marks = []
+    pre = []
+
+    def plant(target_ops):
+        h = rng.choice(_HUGE) * rng.choice([1, 1, -1])
+        if n >= 3 and rng.random() < 0.25:
+            pos = sorted(rng.sample(range(n), 3))
+            parts = [h, h, -2 * h]
+        else:
+            pos = sorted(rng.sample(range(n), 2))
+            parts = [h, -h]
+        rng.shuffle(parts)
+        for i, v in zip(pos, parts):
+            marks.append(i)
+            if target_ops is None:
+                vals[i] = v
+            else:
+                target_ops.append(("update", i, v))
+
+    for _ in range(rng.randint(1, max(1, min(3, n // 2)))):
+        plant(None if rng.random() < 0.7 else pre)
+    ops = list(pre)
+    for _ in range(rng.randint(3, 14)):
+        r = rng.random()
+        if r < 0.55:
+            q = rng.random()
+            i = rng.choice(marks) if q < 0.45 else rng.randint(0, max(marks)) if q < 0.7 else _idx(rng, n)
+            ops.append(("update", i, rng.choice(_TINY)))
+        elif r < 0.65:
+            plant(ops)
+        elif r < 0.72:
+            i = rng.choice(marks)
+            ops.append(("update", i, rng.choice(_HUGE) * rng.choice([1, -1])))  # leaves an uncancelled huge entry: tolerance only there
+        ops += _cancel_queries(rng, n, marks)
+    if n <= 9:
+        ops += [("prefix", i) for i in range(n)]
+    return mode, vals, ops, "shadow"
+
+
+_NONFIN = [float("inf"), float("-inf"), float("nan"), 1e308, -1e308, 1.7e308, 2.0 ** 1023, -(2.0 ** 1023), 5e-324, -0.0]
+
+
+def gen_fw_nonfinite(rng, n=None):
+    """X: inf / -inf / nan entries and finite entries near 1e308 whose sums overflow, as initial values and as deltas."""
+    n = n or rng.choice([1, 2, 3, 4, 5, 8, 9, 17])
+    mode = rng.choice(["values", "values", "size", "tuple"])
+    vals = [rng.choice([0.0, 1.0, -1.0, 0.5, 4.0, 3, 0, -2.0]) for _ in range(n)]
+    marks = []
+    for _ in range(rng.randint(0, 2)):
+        i = rng.randrange(n)
+        vals[i] = rng.choice(_NONFIN)
+        marks.append(i)
+    ops = []
+    for _ in range(rng.randint(3, 12)):
+        r = rng.random()
+        if r < 0.25:
+            i = _idx(rng, n)
+            ops.append(("update", i, rng.choice(_NONFIN)))
+            marks.append(i)
+        elif r < 0.5:
+            ops.append(("update", _idx(rng, n), rng.choice(_TINY)))
+        ops += _cancel_queries(rng, n, marks)
+    if n <= 9:
+        ops += [("range", i, i) for i in range(n)]
+    return mode, vals, ops, "shadow"
+
+
+def gen_fw_a2(rng, n=None):
+    """A2: the tree is built from the caller's list; the caller then edits THAT list in place (replace / append / pop) - the live tree must
+    not notice - and builds a NEW tree from the same, edited list object, which must answer like a plain array holding the edited values
+    (nothing may be remembered per list object, per id() or per length); the second tree is then updated and queried, and so on."""
+    n = n or rng.choice([1, 2, 3, 4, 5, 8, 17, 64])
+    typ = rng.choice(["int", "int", "float", "mixed"])
+    pool = [0, 1, -1, 2, 5, -7, 13, 2 ** 31, 2 ** 44, -(2 ** 44), 10 ** 9]
+
+    def num():
+        v = rng.choice(pool)
+        return float(v) if typ == "float" or (typ == "mixed" and rng.random() < 0.5) else v
+
+    vals = [num() for _ in range(n)]
+    cur = n
+    ops = []
+
+    def some_queries(k):
+        for _ in range(k):
+            r = rng.random()
+            if r < 0.4:
+                ops.append(("prefix", _idx(rng, cur)))
+            elif r < 0.6:
+                ops.append(("range", 0, cur - 1))
+            else:
+                l, h = sorted((_idx(rng, cur), _idx(rng, cur)))
+                ops.append(("range", l, h))
+
+    src_len = n
+    for _ in range(rng.randint(1, 3)):
+        some_queries(rng.randint(1, 3))
+        for _ in range(rng.randint(0, 3)):
+            ops.append(("update", _idx(rng, cur), num()))
+        ops.append(("srccheck",))
+        for _ in range(rng.randint(1, 4)):
+            r = rng.random()
+            if r < 0.5:
+                ops.append(("srcmut", rng.randrange(src_len), num()))
+            elif r < 0.8 or src_len <= 1:
+                ops.append(("srcgrow", num()))
+                src_len += 1
+            else:
+                ops.append(("srcshrink",))
+                src_len -= 1
+        some_queries(rng.randint(1, 3))  # still the old tree
+        ops.append(("rebuild",))
+        cur = src_len
+        some_queries(rng.randint(2, 4))
+        if rng.random() < 0.5:
+            ops.append(("update", _idx(rng, cur), num()))
+            ops.append(("srccheck",))
+            some_queries(2)
+    return "values", vals, ops, "exact"
 
 
 def gen_fw_any(rng, big=True):
     r = rng.random()
-    if r < 0.4:
+    if r < 0.3:
         return gen_fw(rng, big)
-    if r < 0.85:
+    if r < 0.6:
         return gen_fw_mag(rng)
-    if r < 0.92:
+    if r < 0.66:
         return gen_fw_iter(rng)
+    if r < 0.8:
+        return gen_fw_cancel(rng)
+    if r < 0.85:
+        return gen_fw_nonfinite(rng)
+    if r < 0.92:
+        return gen_fw_a2(rng)
     return gen_fw_tol(rng)
+
+
+# ---------------------------------------------------------------- W: work volume (many operations on one object, many elements)
+def _walk_up(i, n):
+    k = 0
+    while i < n:
+        k += 1
+        i |= i + 1
+    return k
+
+
+def _walk_down(i):
+    return bin(i + 1).count("1")
+
+
+def affine_vals(spec):
+    """{"affine": [n, mul, mod, off]} -> [((i * mul) % mod) + off for i < n] (compact description of a long initial array)."""
+    n, mul, mod, off = spec["affine"]
+    return [((i * mul) % mod) + off for i in range(n)]
+
+
+def _expand_vals(vals):
+    return affine_vals(vals) if isinstance(vals, dict) else vals
+
+
+def gen_fw_volume_ops(rng, n, n_updates, mode):
+    """Many point updates (small ints) on one tree of moderate size, queries interleaved and at the end."""
+    vals = [rng.randint(-9, 9) for _ in range(n)]
+    ops = []
+    every = max(1, n_updates // 120)
+    for t in range(n_updates):
+        ops.append(("update", _idx(rng, n), rng.randint(-50, 50)))
+        if t % every == every - 1 or t in (127, 128, 1023, 1024, 2047, 2048, 4095, 4096, 9999, 10000, 65535, 65536, 99999, 100000):
+            l, h = sorted((_idx(rng, n), _idx(rng, n)))
+            ops.append(rng.choice([("prefix", h), ("range", l, h), ("range", 0, n - 1)]))
+    ops += [("range", 0, n - 1), ("prefix", n - 1), ("prefix", 0), ("range", n // 2, n // 2)]
+    return mode, vals, ops, "exact"
+
+
+def gen_fw_volume_n(rng, n, mode):
+    """Many elements: the constructor loop runs n times, update walks from small indices and prefix walks from all-ones indices are as long
+    as they get (floor(log2 n) + 1 steps)."""
+    mul, mod, off = rng.choice([2654435761, 40503, 7919]), rng.choice([2001, 1999, 17]), -rng.choice([1000, 8, 0])
+    vals = {"affine": [n, mul, mod, off]}
+    special = sorted({0, 1, n - 1, n - 2, n // 2} | {(1 << k) - d for k in range(1, n.bit_length() + 1) for d in (0, 1, 2) if 0 <= (1 << k) - d < n})
+    ops = []
+    for _ in range(24):
+        r = rng.random()
+        if r < 0.4:
+            ops.append(("update", rng.choice(special) if rng.random() < 0.7 else rng.randrange(n), rng.randint(-1000, 1000)))
+        elif r < 0.7:
+            ops.append(("prefix", rng.choice(special)))
+        else:
+            l, h = sorted((rng.choice(special), rng.randrange(n)))
+            ops.append(("range", l, h))
+    ops += [("update", 0, 5), ("prefix", n - 1), ("range", 0, n - 1), ("range", n - 1, n - 1), ("prefix", (1 << (n.bit_length() - 1)) - 2)]
+    return mode, vals, ops, "exact"
+
+
+def gen_fw_volume_queries(rng, n, n_queries, mode):
+    """Many queries on one tree (an update now and then): answers must not depend on how many were asked before."""
+    vals = [rng.randint(-9, 9) for _ in range(n)]
+    ops = []
+    for t in range(n_queries):
+        if t % 97 == 0:
+            ops.append(("update", _idx(rng, n), rng.randint(-50, 50)))
+        l, h = sorted((_idx(rng, n), _idx(rng, n)))
+        ops.append(("prefix", h) if rng.random() < 0.5 else ("range", l, h))
+    return mode, vals, ops, "exact"
+
+
+def gen_uf_volume_ops(rng, n, n_ops, p_union=0.5):
+    """Many operations on one UnionFind of moderate size (random unions / finds / connected, a few global reads)."""
+    ops = []
+    every = max(1, n_ops // 12)
+    for t in range(n_ops):
+        r = rng.random()
+        x, y = rng.randrange(n), rng.randrange(n)
+        ops.append(("union", x, y) if r < p_union else ("find", x) if r < (1 + p_union) / 2 else ("connected", x, y))
+        if t % every == every - 1:
+            ops.append(rng.choice([("count",), ("sizes",), ("comps",)]))
+    ops += [("count",), ("comps",)]
+    return n, ops
+
+
+def gen_uf_volume_n(rng, n, pattern):
+    """Many elements.  'balanced': blocks of 1, 2, 4, ... united through their first elements (the roots under the documented tie rule):
+    tree height floor(log2 n) before the first read, deepest elements are the all-ones indices.  'random': about n random unions."""
+    ops = []
+    if pattern == "balanced":
+        size = 1
+        while size < n:
+            for lo in range(0, n, 2 * size):
+                if lo + size < n:
+                    ops.append(("union", lo, lo + size))
+            size *= 2
+        deep = (1 << (n.bit_length() - 1)) - 1
+        ops += [("find", deep), ("connected", deep, 0), ("find", n - 1), ("connected", n - 1, deep // 2), ("count",), ("sizes",)]
+    else:
+        for _ in range(n):
+            ops.append(("union", rng.randrange(n), rng.randrange(n)))
+        ops += [("count",), ("sizes",)]
+    for _ in range(40):
+        x, y = rng.randrange(n), rng.randrange(n)
+        ops.append(rng.choice([("find", x), ("connected", x, y), ("union", x, y)]))
+    ops += [("count",), ("comps",)]
+    return n, ops
 
 
 # ================================================================ implementation runs
@@ -439,15 +709,16 @@ def run_uf_impl(n, ops):
     from solvor.utils.data_structures import UnionFind
 
     uf = UnionFind(n)
-    other = UnionFind(n)  # a second live instance receiving different operations: instances share nothing
+    other = UnionFind(min(n, 4096))  # a second live instance receiving different operations: instances share nothing
+    m = len(other)
     outs = []
     for o in ops:
         if o[0] == "union":
             outs.append(("b", bool(uf.union(o[1], o[2]))))
-            other.union(o[2], (o[1] + 1) % n)
+            other.union(o[2] % m, (o[1] + 1) % m)
         elif o[0] == "find":
             outs.append(("n", int(uf.find(o[1]))))
-            other.find(n - 1 - o[1])
+            other.find((n - 1 - o[1]) % m)
         elif o[0] == "connected":
             outs.append(("b", bool(uf.connected(o[1], o[2]))))
         elif o[0] == "count":
@@ -460,12 +731,13 @@ def run_uf_impl(n, ops):
 
 
 def _same_list(a, b):
-    return len(a) == len(b) and all(type(x) is type(y) and x == y for x, y in zip(a, b))
+    return len(a) == len(b) and all(type(x) is type(y) and (x == y or (x != x and y != y)) for x, y in zip(a, b))
 
 
 def run_fw_impl(mode, vals, ops):
     from solvor.utils.data_structures import FenwickTree
 
+    vals = _expand_vals(vals)
     n = len(vals)
     src = expect_src = None
     if mode == "size":
@@ -494,27 +766,48 @@ def run_fw_impl(mode, vals, ops):
             if mode == "values":
                 raise
             return [("na", type(e).__name__)]  # documented parameter type is list: other iterables are judged only if accepted
-        other = FenwickTree(list(vals))
+        other = FenwickTree(list(vals[:4096]))
+    m = len(other)
     outs = []
+    retired = []  # trees replaced by a rebuild stay alive
     for o in ops:
-        if o[0] == "update":
-            r = ft.update(o[1], o[2])
-            outs.append(("u", r))
-            other.update(n - 1 - o[1], o[2] + 1)
-        elif o[0] == "prefix":
-            outs.append(("z", canon_num(ft.prefix(o[1]))))
-        elif o[0] == "range":
-            outs.append(("z", canon_num(ft.range_sum(o[1], o[2]))))
-            other.range_sum(0, n - 1)
-        elif o[0] == "srccheck":
-            outs.append(("b", src is None or _same_list(src, expect_src)))
-        elif o[0] == "srcmut":
-            if src is not None:
-                src[o[1]] = o[2]
-                expect_src[o[1]] = o[2]
-            outs.append(("u", None))
-        else:
-            raise ValueError(o)
+        try:
+            if o[0] == "update":
+                r = ft.update(o[1], o[2])
+                outs.append(("u", r))
+                other.update((n - 1 - o[1]) % m, o[2] + 1)
+            elif o[0] == "prefix":
+                outs.append(("z", canon_num(ft.prefix(o[1]))))
+            elif o[0] == "range":
+                outs.append(("z", canon_num(ft.range_sum(o[1], o[2]))))
+                other.range_sum(0, m - 1)
+            elif o[0] == "srccheck":
+                outs.append(("b", src is None or _same_list(src, expect_src)))
+            elif o[0] == "srcmut":
+                if src is not None:
+                    src[o[1]] = o[2]
+                    expect_src[o[1]] = o[2]
+                outs.append(("u", None))
+            elif o[0] == "srcgrow":
+                src.append(o[1])
+                expect_src.append(o[1])
+                outs.append(("u", None))
+            elif o[0] == "srcshrink":
+                src.pop()
+                expect_src.pop()
+                outs.append(("u", None))
+            elif o[0] == "rebuild":
+                retired.append(ft)
+                ft = FenwickTree(src)  # the SAME list object, edited in place since the first tree was built from it
+                n = len(src)
+                outs.append(("u", None))
+            else:
+                raise ValueError(o)
+        except (ArithmeticError, ValueError) as e:
+            if o[0] not in ("update", "prefix", "range"):
+                raise
+            outs.append(("raised", type(e).__name__))  # judged by the reference (acceptable only next to inf / nan); the history ends here
+            break
     return outs
 
 
@@ -570,82 +863,238 @@ def _brief(x, lim=300):
 
 
 def _is_num(x):
-    return isinstance(x, (int, float)) and not isinstance(x, bool) and (not isinstance(x, float) or math.isfinite(x))
+    return isinstance(x, (int, float)) and not isinstance(x, bool)
 
 
-def oracle_fw(mode, vals, ops, outs, judge="exact"):
-    """Plain array of exact rationals that received the same initial values and updates.  judge='exact': answers must be
-    equal as numbers.  judge='tol' (inexact float data only): |answer - exact| <= 4 (m + 64) 2^-53 * (sum of magnitudes fed in),
-    m = number of values fed in so far - a bound every float summation of these numbers obeys whatever the order."""
+def _fin(v):
+    return isinstance(v, (int, Fraction)) or math.isfinite(v)
+
+
+def _ex(v):
+    """Exact value of a Python number: int where integral (fast), Fraction otherwise, None for inf / nan."""
+    if isinstance(v, int):
+        return v
+    if not math.isfinite(v):
+        return None
+    return int(v) if v == int(v) else Fraction(v)
+
+
+def _add(x, y):
+    return None if x is None or y is None else x + y
+
+
+def _clean(py, ex):
+    """The Python number the canonical tree holds is finite and equals the exact value (int/float/Fraction comparisons are exact)."""
+    return ex is not None and _fin(py) and py == ex
+
+
+def _same_float(a, b):
+    return a == b or (a != a and b != b)
+
+
+class _DualTree:
+    """The canonical Fenwick algorithm - the index walks of the Coq model SV.C20.Fenwick: constructor j = i | (i+1), update i |= i+1,
+    prefix i = (i & (i+1)) - 1 starting from 0.0 - run in lock step on (a) Python numbers of the types the class holds (ints stay ints
+    in a tree built from ints, 0.0 for the size constructor) and (b) exact values.  It is NOT the expected answer (that is the plain
+    array); it only tells for which queries float arithmetic in that tree is exact, i.e. where 'exactly' can be demanded of float data."""
+
+    def __init__(self, mode, vals):
+        self.n = n = len(vals)
+        if mode == "size":
+            self.py, self.ex = [0.0] * n, [0] * n
+            for i, v in enumerate(vals):
+                self.update(i, v)
+        else:
+            self.py, self.ex = list(vals), [_ex(v) for v in vals]
+            for i in range(n):
+                j = i | (i + 1)
+                if j < n:
+                    self.py[j] = self.py[j] + self.py[i]
+                    self.ex[j] = _add(self.ex[j], self.ex[i])
+
+    def update(self, i, d):
+        e = _ex(d)
+        while i < self.n:
+            self.py[i] = self.py[i] + d
+            self.ex[i] = _add(self.ex[i], e)
+            i |= i + 1
+
+    def prefix(self, i):
+        tp, te, ok = 0.0, 0, True
+        while i >= 0:
+            ok = ok and _clean(self.py[i], self.ex[i])
+            tp = tp + self.py[i]
+            te = _add(te, self.ex[i])
+            ok = ok and _clean(tp, te)
+            i = (i & (i + 1)) - 1
+        return tp, te, ok
+
+    def range_sum(self, l, r):
+        tp, te, ok = self.prefix(r)
+        if l > 0:
+            bp, be, ok2 = self.prefix(l - 1)
+            tp = tp - bp
+            te = None if te is None or be is None else te - be
+            ok = ok and ok2 and _clean(tp, te)
+        return tp, te, ok
+
+    def nonfinite(self):
+        return any(not _fin(v) for v in self.py)
+
+
+SOFT_NONFINITE = "C20-fenwick-nonfinite"  # class name of the (possible) known_findings entry, see run()
+
+
+def oracle_fw(mode, vals, ops, outs, judge="exact", soft=None):
+    """Plain array of exact values that received the same initial values and updates (a new plain array after a 'rebuild').
+    Returns None or (op index, description).
+    judge='exact'  : every answer must equal the exact sum (as a number: 7.0 == 7).
+    judge='tol'    : |answer - exact sum| <= 4 (m + 64) 2^-53 * (sum of |finite values| fed in so far), m = number of values fed in -
+                     a bound every float summation of these numbers obeys whatever the order.
+    judge='shadow' : 'tol', and in addition EXACT equality for each query during which the canonical tree (_DualTree) reads only nodes whose
+                     float value is exactly the block sum and forms only exactly representable partial sums (so a tiny update next to huge
+                     cancelling entries must show up exactly in every block where the huge entries cancel).  With inf / nan entries or
+                     overflowing sums: queries the canonical tree answers from finite exact nodes stay exact; where the canonical tree
+                     itself produces inf / nan the implementation may return the exact answer, the plain float array's inf / nan, or raise;
+                     another inf / nan there is appended to `soft` (class C20-fenwick-nonfinite) instead of failing; a finite wrong
+                     answer fails."""
+    vals = _expand_vals(vals)
     if outs and tuple(outs[0])[0] == "na":
         return None
-    if len(outs) != len(ops):
+    raised = bool(outs) and tuple(outs[-1])[0] == "raised"
+    if len(outs) != len(ops) and not (raised and judge == "shadow" and len(outs) < len(ops)):
         return (0, f"{len(outs)} outputs for {len(ops)} operations")
-    a = [Fraction(v) for v in vals]
-    mass = sum(abs(v) for v in a)
+    a = [_ex(v) for v in vals]
+    a_py = [0.0 + v for v in vals] if mode == "size" else list(vals)
+    src = list(vals)
+    mass = sum(abs(v) for v in a if v is not None)
     fed = len(a)
+    dt = _DualTree(mode, vals) if judge == "shadow" else None
     for k, (o, r) in enumerate(zip(ops, outs)):
         r = tuple(r)
+        if r[0] == "raised":
+            if dt is not None and (dt.nonfinite() or (o[0] == "update" and not _fin(o[2]))):
+                return None
+            return (k, f"op {k} {o}: raised {r[1]}")
         if o[0] == "update":
-            a[o[1]] += Fraction(o[2])
-            mass += abs(Fraction(o[2]))
+            a[o[1]] = _add(a[o[1]], _ex(o[2]))
+            a_py[o[1]] = a_py[o[1]] + o[2]
+            if _fin(o[2]):
+                mass += abs(_ex(o[2]))
             fed += 1
+            if dt is not None:
+                dt.update(o[1], o[2])
             if r != ("u", None):
                 return (k, f"op {k} update returned {r}")
         elif o[0] == "srcmut":
-            pass
+            src[o[1]] = o[2]
+        elif o[0] == "srcgrow":
+            src.append(o[1])
+        elif o[0] == "srcshrink":
+            src.pop()
+        elif o[0] == "rebuild":
+            a = [_ex(v) for v in src]
+            a_py = list(src)
+            mass += sum(abs(v) for v in a if v is not None)
+            fed += len(a)
+            if dt is not None:
+                dt = _DualTree("values", src)
         elif o[0] == "srccheck":
             if r != ("b", True):
                 return (k, f"op {k}: the list passed to the constructor was modified by the tree (constructor or update)")
         else:
-            want = sum(a[: o[1] + 1]) if o[0] == "prefix" else sum(a[o[1]: o[2] + 1])
+            lo, hi = (0, o[1]) if o[0] == "prefix" else (o[1], o[2])
+            part = a[lo: hi + 1]
+            want = None if any(v is None for v in part) else sum(part)
             if r[0] != "z" or not _is_num(r[1]):
                 return (k, f"op {k} {o}: returned {r}, expected {_show(want)}")
-            got = Fraction(r[1])
-            ok = got == want if judge == "exact" else abs(got - want) <= Fraction(4 * (fed + 64), 2 ** 53) * mass
-            if not ok:
-                return (k, f"op {k} {o}: returned {r[1]!r}, expected {_show(want)}" + ("" if judge == "exact" else " (beyond the float summation bound)"))
+            got = r[1]
+            if dt is None:
+                if judge == "exact":
+                    ok = _fin(got) and got == want
+                else:
+                    ok = _fin(got) and abs(_ex(got) - want) <= Fraction(4 * (fed + 64), 2 ** 53) * mass
+                if not ok:
+                    return (k, f"op {k} {o}: returned {got!r}, expected {_show(want)}" + ("" if judge == "exact" else " (beyond the float summation bound)"))
+                continue
+            tp, te, exact = dt.prefix(o[1]) if o[0] == "prefix" else dt.range_sum(o[1], o[2])
+            if exact:
+                assert want is not None and te == want, ("harness: canonical tree and plain array disagree in exact arithmetic", o, te, want)
+                if not (_fin(got) and got == want):
+                    return (k, f"op {k} {o}: returned {got!r}, expected {_show(want)} (exactly: the tree answers this query from exactly representable "
+                               "block sums only)")
+            elif want is not None and _fin(got):
+                if abs(_ex(got) - want) > Fraction(4 * (fed + 64), 2 ** 53) * mass:
+                    return (k, f"op {k} {o}: returned {got!r}, expected {_show(want)} (beyond the float summation bound)")
+            elif want is not None:  # a finite exact answer exists, the implementation says inf / nan
+                if _fin(tp):
+                    return (k, f"op {k} {o}: returned {got!r}, expected {_show(want)}")
+                if soft is not None:
+                    soft.append((k, o, got, _show(want)))
+            else:  # the range contains an inf / nan entry: the plain float array gives inf / nan
+                want_py = 0.0
+                for v in a_py[lo: hi + 1]:
+                    want_py = want_py + v
+                if _fin(got):
+                    return (k, f"op {k} {o}: returned {got!r}, but the range holds a non-finite entry (plain array: {want_py!r})")
+                if not _same_float(got, want_py) and soft is not None:
+                    soft.append((k, o, got, repr(want_py)))
     return None
 
 
 def _show(fr):
-    return str(fr.numerator) if fr.denominator == 1 else f"{float(fr)!r} (= {fr})"
+    if fr is None:
+        return "inf/nan"
+    fr = Fraction(fr)
+    if fr.denominator == 1 and abs(fr.numerator) < 10 ** 30:
+        return str(fr.numerator)
+    try:
+        approx = repr(float(fr))
+    except OverflowError:
+        approx = ("-" if fr < 0 else "") + f"about 2^{abs(fr.numerator).bit_length() - fr.denominator.bit_length()} (beyond the float range)"
+    return f"{approx} (= {fr})" if fr.denominator < 10 ** 30 and abs(fr.numerator) < 10 ** 30 else f"{approx} (exact value)"
 
 
 # ---------------------------------------------------------------- shrinking (drop operations while the reference still objects)
 def _uf_verdict(n, ops):
-    res = guarded(run_uf_impl, n, ops, timeout=5)
+    res = guarded(run_uf_impl, n, ops, timeout=5 + (n + len(ops)) / 20000)
     outs = outcome_to_outs(res, len(ops))
     bad = oracle_uf(n, ops, outs) if res[0] == "ok" else (len(ops) - 1, f"implementation {res[0]}: {res[1:]}")
     return outs, bad
 
 
-def _fw_verdict(mode, vals, ops, judge):
-    res = guarded(run_fw_impl, mode, vals, ops, timeout=5)
+def _fw_verdict(mode, vals, ops, judge, soft=None):
+    nv = vals["affine"][0] if isinstance(vals, dict) else len(vals)
+    res = guarded(run_fw_impl, mode, vals, ops, timeout=5 + (nv + len(ops)) / 20000)
     outs = outcome_to_outs(res, len(ops))
-    bad = oracle_fw(mode, vals, ops, outs, judge) if res[0] == "ok" else (len(ops) - 1, f"implementation {res[0]}: {res[1:]}")
+    bad = oracle_fw(mode, vals, ops, outs, judge, soft) if res[0] == "ok" else (len(ops) - 1, f"implementation {res[0]}: {res[1:]}")
     return outs, bad
 
 
 def _shrink_ops(ops, verdict, bad, limit=400, seconds=15.0):
-    """Truncate after the first failing operation, then drop single operations (last to first) while it still fails."""
+    """Truncate after the first failing operation, then drop blocks of operations (halves, quarters, ... single operations, last to
+    first) while the reference still objects; bounded by `limit` runs and `seconds`."""
     import time
 
     ops = list(ops[: bad[0] + 1])
-    runs = 0
-    i = len(ops) - 2
-    t0 = time.time()
     if "implementation hang" in bad[1]:
         return ops
-    while i >= 0 and runs < limit and time.time() - t0 < seconds:
-        cand = ops[:i] + ops[i + 1:]
-        runs += 1
-        b = verdict(cand)[1]
-        if b:
-            ops = list(cand[: b[0] + 1])
-            i = min(i, len(ops) - 1)
-        i -= 1
-    return ops
+    t0 = time.time()
+    runs = 0
+    size = max(1, (len(ops) - 1) // 2)
+    while True:
+        i = len(ops) - 1 - size  # never drop the last (failing) operation first
+        while i >= 0 and runs < limit and time.time() - t0 < seconds:
+            cand = ops[:i] + ops[i + size:]
+            runs += 1
+            b = verdict(cand)[1] if cand else None
+            if b:
+                ops = list(cand[: b[0] + 1])
+                i = min(i, len(ops) - 1)
+            i -= size
+        if size == 1 or runs >= limit or time.time() - t0 >= seconds:
+            return ops
+        size = max(1, size // 2)
 
 
 def shrink_uf(n, ops, bad):
@@ -659,20 +1108,28 @@ def shrink_uf(n, ops, bad):
 
 
 def shrink_fw(mode, vals, ops, judge, bad):
-    orig = (list(vals), list(ops), bad)
+    orig = (vals if isinstance(vals, dict) else list(vals), list(ops), bad)
     ops = _shrink_ops(ops, lambda c: _fw_verdict(mode, vals, c, judge), bad)
     if not _fw_verdict(mode, vals, ops, judge)[1]:
         return orig[0], orig[1], _fw_verdict(mode, orig[0], orig[1], judge)[0], bad
     # values: zero out entries one at a time (keeps indices meaningful); then cut the tail of the array if unused
-    if not mode.startswith("range:"):
+    structural = any(o[0] in ("rebuild", "srcgrow", "srcshrink", "srcmut") for o in ops)
+    used = 1 + max([max(o[1:3]) if o[0] == "range" else o[1] for o in ops if o[0] in ("update", "prefix", "range")] + [0])
+    if isinstance(vals, dict):
+        n, mul, mod, off = vals["affine"]
+        while n // 2 >= used:
+            cand = {"affine": [n // 2, mul, mod, off]}
+            if not _fw_verdict(mode, cand, ops, judge)[1]:
+                break
+            vals, n = cand, n // 2
+    elif not mode.startswith("range:") and not structural:
         vals = list(vals)
         for i in range(len(vals)):
             if vals[i] != 0 and len(vals) <= 130:
                 cand = vals[:i] + [type(vals[i])(0)] + vals[i + 1:]
                 if _fw_verdict(mode, cand, ops, judge)[1]:
                     vals = cand
-        used = 1 + max([max(o[1:3]) if o[0] == "range" else o[1] for o in ops if len(o) > 1] + [0])
-        while len(vals) > used and _fw_verdict(mode, vals[:-1], ops, judge)[1]:
+        while len(vals) > used and len(vals) <= 2000 and _fw_verdict(mode, vals[:-1], ops, judge)[1]:
             vals = vals[:-1]
     outs, bad = _fw_verdict(mode, vals, ops, judge)
     return vals, ops, outs, bad
@@ -727,7 +1184,9 @@ def fw_coq_case(mode, vals, ops, outs, judge):
     more than COQ_MAX_N elements, constructor argument not accepted.  Integer-valued floats are mapped to the same integer
     (sound here because judge == 'exact' histories keep every partial sum exactly representable).  The caller-side list
     operations (srccheck / srcmut) are not operations of the tree and are left out."""
-    if judge != "exact" or len(vals) > COQ_MAX_N or (outs and outs[0][0] in ("na", "fail")):
+    if judge != "exact" or isinstance(vals, dict) or len(vals) > COQ_MAX_N or (outs and outs[0][0] in ("na", "fail")):
+        return None
+    if any(o[0] == "rebuild" for o in ops):
         return None
     if not all(_integral(v) for v in vals) or not all(_integral(o[2]) for o in ops if o[0] == "update"):
         return None
@@ -740,6 +1199,36 @@ def outcome_to_outs(res, nops):
     if res[0] == "ok":
         return res[1]
     return [("fail", res[0], res[1] if len(res) > 1 else "")] * max(1, nops)
+
+
+def res_ok(outs):
+    return not (outs and outs[0][0] == "fail")
+
+
+def _brief_outs(outs, lim=400):
+    return outs if len(outs) <= lim else list(outs[:lim // 2]) + [("...", len(outs) - lim)] + list(outs[-lim // 2:])
+
+
+def _shadow_stats(mode, vals, ops):
+    """(number of queries of a 'shadow' history that are judged exactly, number judged by the bound / non-finite rule)."""
+    dt = _DualTree(mode, vals)
+    src = list(vals)
+    ex = tol = 0
+    for o in ops:
+        if o[0] == "update":
+            dt.update(o[1], o[2])
+        elif o[0] == "srcmut":
+            src[o[1]] = o[2]
+        elif o[0] == "srcgrow":
+            src.append(o[1])
+        elif o[0] == "srcshrink":
+            src.pop()
+        elif o[0] == "rebuild":
+            dt = _DualTree("values", src)
+        elif o[0] in ("prefix", "range"):
+            ok = (dt.prefix(o[1]) if o[0] == "prefix" else dt.range_sum(o[1], o[2]))[2]
+            ex, tol = ex + ok, tol + (not ok)
+    return ex, tol
 
 
 # ================================================================ the check
@@ -805,6 +1294,43 @@ def run(ctx: Ctx):
         fw_cases.append(("tol",) + gen_fw_tol(rng))
     fw_cases.append(("tol",) + gen_fw_tol(rng, 1000))
 
+    # ---- round 3.  X: cancelling huge floats + tiny updates, inf / nan / overflow;  A2: in-place edits of the source list + rebuild
+    fw_cases += [("cancel", "values", [2.0 ** 60, -(2.0 ** 60), 4.0, 0.5], [("update", 0, 1.0), ("range", 0, 1), ("prefix", 3), ("range", 2, 3), ("prefix", 0)], "shadow"),
+                 ("cancel", "size", [0.0, 2.0 ** 53, 1.0, -(2.0 ** 53)], [("update", 1, 1.0), ("range", 1, 3), ("prefix", 3), ("update", 1, -(2.0 ** 53)), ("prefix", 1)], "shadow"),
+                 ("nonfinite", "values", [float("inf"), 1.0, 2.0], [("prefix", 0), ("range", 1, 1), ("range", 1, 2), ("prefix", 2)], "shadow"),
+                 ("nonfinite", "values", [1.0, 1e308, 1e308, -1e308, 2.0], [("prefix", 0), ("prefix", 1), ("range", 1, 3), ("range", 4, 4), ("prefix", 4)], "shadow"),
+                 ("nonfinite", "size", [1.0, 2.0, 3.0], [("update", 2, float("nan")), ("prefix", 1), ("range", 0, 0), ("range", 2, 2), ("prefix", 2)], "shadow")]
+    for n in (2, 3, 4, 5, 8, 9, 17, 33, 64, 65):
+        for _ in range(ctx.budget(6, 80)):
+            fw_cases.append(("cancel",) + gen_fw_cancel(rng, n))
+    for _ in range(ctx.budget(40, 800)):
+        fw_cases.append(("cancel",) + gen_fw_cancel(rng))
+    for _ in range(ctx.budget(40, 600)):
+        fw_cases.append(("nonfinite",) + gen_fw_nonfinite(rng))
+    for _ in range(ctx.budget(40, 600)):
+        fw_cases.append(("a2",) + gen_fw_a2(rng))
+
+    # ---- round 3.  W: work volume.  quick crosses 2^7 .. 2^12, 10^4 (and 2^16 / 2^20 for the linear constructor loop), thorough 10^5 / 2^20 everywhere
+    loop_max = {}
+
+    def lmax(key, v):
+        loop_max[key] = max(loop_max.get(key, 0), v)
+
+    vol_ops = [12000] + ([130000] if thorough else [])
+    for k in vol_ops:
+        fw_cases.append(("volume-ops", ) + gen_fw_volume_ops(rng, rng.choice([64, 65, 1000]), k, "values"))
+        fw_cases.append(("volume-ops", ) + gen_fw_volume_ops(rng, rng.choice([17, 129, 1000]), k, "size"))
+        uf_cases.append(("volume-ops",) + gen_uf_volume_ops(rng, rng.choice([64, 200, 1000]), k))
+        uf_cases.append(("volume-ops",) + gen_uf_volume_ops(rng, 4097, k))
+        uf_cases.append(("volume-ops",) + gen_uf_volume_ops(rng, rng.choice([300, 1000]), k, 0.02))
+        fw_cases.append(("volume-queries",) + gen_fw_volume_queries(rng, rng.choice([17, 64, 65]), k, rng.choice(["values", "size"])))
+    for n, mode in [(129, "values"), (4097, "values"), (4097, "size"), (10001, "values"), (10001, "size"), (2 ** 16 + 1, "values"), (2 ** 20 + 2, "values")] \
+            + ([(2 ** 17 + 3, "size"), (2 ** 20 + 2, "size"), (100001, "tuple")] if thorough else []):
+        fw_cases.append(("volume-n",) + gen_fw_volume_n(rng, n, mode))
+    for n, pattern in [(4097, "balanced"), (4097, "random"), (10001, "balanced"), (10001, "random"), (2 ** 16 + 1, "balanced")] \
+            + ([(100001, "random"), (2 ** 20 + 2, "balanced"), (2 ** 20 + 2, "random")] if thorough else []):
+        uf_cases.append(("volume-n",) + gen_uf_volume_n(rng, n, pattern))
+
     # ---- UnionFind
     coq_cases, metas = [], []
     reported = 0
@@ -812,9 +1338,19 @@ def run(ctx: Ctx):
         outs, bad = _uf_verdict(n, ops)
         ctx.evaluations += 1
         ctx.count("uf_family", fam)
-        ctx.count("uf_n", n if n <= 12 else "13-40" if n <= 40 else "41-130" if n <= 130 else ">130")
+        ctx.count("uf_n", n if n <= 12 else "13-40" if n <= 40 else "41-130" if n <= 130 else "131-2000" if n <= 2000 else ">2000")
+        kinds = {}
         for o in ops:
-            ctx.count("uf_ops", o[0])
+            kinds[o[0]] = kinds.get(o[0], 0) + 1
+        for kk, vv in kinds.items():
+            ctx.count("uf_ops", kk, vv)
+        lmax("UnionFind: operations on one object", len(ops))
+        lmax("UnionFind: union calls on one object", kinds.get("union", 0))
+        lmax("UnionFind: find/connected calls on one object", kinds.get("find", 0) + kinds.get("connected", 0))
+        if kinds.get("sizes") or kinds.get("comps"):
+            lmax("UnionFind.component_sizes / get_components: loop over n elements", n)
+        if fam == "volume-n" and ops[0][:2] == ("union", 0) and res_ok(outs):
+            lmax("UnionFind.find: parent links above the deepest element before the first read (balanced merges through roots)", n.bit_length() - 1)
         if bad:
             if reported < 8:
                 s_ops, s_outs, s_bad = shrink_uf(n, ops, bad)
@@ -822,7 +1358,7 @@ def run(ctx: Ctx):
             else:
                 s_ops, s_outs, s_bad = ops, outs, bad
             ctx.violation(f"UnionFind history violates the partition reference: {s_bad[1]}",
-                          {"kind": "uf", "family": fam, "n": n, "ops": s_ops, "impl_outs": s_outs})
+                          {"kind": "uf", "family": fam, "n": n, "ops": s_ops, "impl_outs": _brief_outs(s_outs)})
         eff = sum(1 for o, r in zip(ops, outs) if o[0] == "union" and r == ("b", True))
         if eff >= 2 and any(o[0] != "union" for o in ops[2:]):
             ctx.nontriv(("uf", n, tuple(ops)))
@@ -839,12 +1375,41 @@ def run(ctx: Ctx):
     # ---- Fenwick
     coq_cases, metas = [], []
     reported = 0
+    soft_open = [f for f in ctx.open_findings() if f.get("class") == SOFT_NONFINITE]
+    soft_seen = []
     for fam, mode, vals, ops, judge in fw_cases:
-        outs, bad = _fw_verdict(mode, vals, ops, judge)
+        soft = []
+        outs, bad = _fw_verdict(mode, vals, ops, judge, soft)
         ctx.evaluations += 1
+        spec, vals = vals, _expand_vals(vals)
         n = len(vals)
         ctx.count("fw_family", fam)
-        ctx.count("fw_n", n if n <= 17 else "18-65" if n <= 65 else ">65")
+        ctx.count("fw_judge", judge)
+        ctx.count("fw_n", n if n <= 17 else "18-65" if n <= 65 else "66-1000" if n <= 1000 else ">1000")
+        if mode != "size":
+            lmax("FenwickTree.__init__: constructor loop over n values", n)
+        nq = 0
+        for o in ops:
+            if o[0] == "update":
+                lmax("FenwickTree.update: steps of one walk (i |= i+1)", _walk_up(o[1], n))
+            elif o[0] == "prefix":
+                nq += 1
+                lmax("FenwickTree.prefix: steps of one walk (i = (i & (i+1)) - 1)", _walk_down(o[1]))
+            elif o[0] == "range":
+                nq += 1
+                lmax("FenwickTree.prefix: steps of one walk (i = (i & (i+1)) - 1)", max(_walk_down(o[2]), _walk_down(o[1] - 1) if o[1] else 0))
+            elif o[0] == "rebuild":
+                break  # n changes; the histories with rebuilds are short anyway
+        lmax("FenwickTree: update calls on one object", sum(1 for o in ops if o[0] == "update") + (n if mode == "size" else 0))
+        lmax("FenwickTree: prefix/range_sum calls on one object", nq)
+        if judge == "shadow" and not bad:
+            ex_q, tol_q = _shadow_stats(mode, vals, ops)
+            ctx.count("fw_shadow_queries", "judged exactly (canonical walk exact)", ex_q)
+            ctx.count("fw_shadow_queries", "judged by bound / non-finite rule", tol_q)
+        if soft and not bad:
+            ctx.count("fw_nonfinite", "implementation returns another inf/nan than the plain array (or inf/nan for a finite exact sum) where the canonical tree is non-finite too")
+            if not soft_seen or len(ops) < len(soft_seen[1]):
+                soft_seen = [mode, ops, vals, soft[0]]
         ctx.count("fw_mode", mode.split(":")[0])
         if mode not in ("values", "size"):
             ctx.count("fw_ctor_accepts_" + mode.split(":")[0], not (outs and outs[0][0] == "na"))
@@ -852,21 +1417,21 @@ def run(ctx: Ctx):
             ctx.count("fw_magnitude", ">=2^31 present")
         if bad:
             if reported < 8:
-                s_vals, s_ops, s_outs, s_bad = shrink_fw(mode, vals, ops, judge, bad)
+                s_vals, s_ops, s_outs, s_bad = shrink_fw(mode, spec, ops, judge, bad)
                 reported += 1
             else:
-                s_vals, s_ops, s_outs, s_bad = vals, ops, outs, bad
+                s_vals, s_ops, s_outs, s_bad = spec, ops, outs, bad
             ctx.violation(f"FenwickTree history violates the plain-array reference: {s_bad[1]}",
-                          {"kind": "fw", "family": fam, "mode": mode, "judge": judge, "vals": s_vals, "ops": s_ops, "impl_outs": s_outs})
+                          {"kind": "fw", "family": fam, "mode": mode, "judge": judge, "vals": s_vals, "ops": s_ops, "impl_outs": _brief_outs(s_outs)})
         seen_upd = False
         for o in ops:
             if o[0] == "update":
                 seen_upd = True
             elif seen_upd and o[0] in ("prefix", "range"):
-                ctx.nontriv(("fw", mode, tuple(vals), tuple(ops)))
+                ctx.nontriv(("fw", mode, str(spec) if isinstance(spec, dict) else tuple(vals), tuple(ops)))
                 break
         ctx.sample({"kind": "fw", "mode": mode, "vals": vals[:8], "ops": ops[:8], "outs": outs[:8]}, 4)
-        term = fw_coq_case(mode, vals, ops, outs, judge)
+        term = fw_coq_case(mode, spec, ops, outs, judge)
         if term is not None:
             coq_cases.append(term)
             metas.append((mode, vals, ops, outs))
@@ -875,6 +1440,15 @@ def run(ctx: Ctx):
     failing = ctx.coq_check("fw", "From SV Require Import C20.Fenwick.", "list Z * (list Fenwick.op * list Fenwick.out)",
                             "fun c => list_eqb Fenwick.out_eqb (Fenwick.run_from (fst c) (fst (snd c))) (snd (snd c))", coq_cases)
     fw_disagree = [metas[i] for i in failing]
+    if soft_seen:
+        mode_, ops_, vals_, (k_, o_, got_, want_) = soft_seen
+        what = (f"FenwickTree({'size ctor + updates' if mode_ == 'size' else mode_} {_brief(vals_, 120)}) after {_brief(ops_[:k_], 200)}: {o_} returns {got_!r}, "
+                f"plain array gives {want_} (inf/nan entries or overflowing sums poison ranges that do not contain them: prefix differences inf - inf)")
+        if soft_open:
+            ctx.known_hit(soft_open[0]["id"], what)
+        else:
+            ctx.notes.append("NON-FINITE DATA (reported to the coordinator, no known_findings entry of class " + SOFT_NONFINITE + " yet, not failed): " + what)
+    ctx.hist["loop_max_iterations"] = loop_max
 
     ctx.notes += [
         "Fenwick model is over Z; the implementation accumulates in Python floats (prefix starts from 0.0, FenwickTree(n) stores 0.0): "
@@ -889,6 +1463,25 @@ def run(ctx: Ctx):
         "Constructor: documented parameter type is list; tuple / range / generator arguments are judged only when the constructor accepts "
         "them without TypeError/AttributeError (histogram fw_ctor_accepts_*).  The caller's list is compared (values and types) after "
         "construction/updates and then overwritten by the caller; the tree's answers must not change.",
+        "Round 3, float extremes (judge 'shadow'): the expected answer is always the exact sum over the plain array (rationals).  Exact equality is "
+        "demanded for every query during which the canonical Fenwick tree - the index walks of the Coq model, executed in the harness on Python "
+        "numbers and on exact values side by side - reads only nodes whose float value equals the exact block sum and forms only exactly "
+        "representable partial sums; e.g. FenwickTree([2.0**60, -2.0**60]); update(0, 1.0); prefix(1) must be exactly 1 (node 1 holds 0.0 + 1.0) "
+        "while prefix(0) = 2^60 is only within the bound (node 0 absorbed the 1.0).  All other finite answers obey the summation bound 4(m+64)2^-53 * "
+        "sum|values fed in|.  This exactness rule presupposes the Fenwick block structure (block of node j = [j & (j+1), j]); an implementation "
+        "with another decomposition could be flagged although it meets the bound - accepted, the anchored class is a Fenwick tree.",
+        "inf / nan entries and finite entries whose sums overflow: queries answered from finite exact nodes stay exact; where the canonical tree itself "
+        "yields inf / nan the implementation may give the exact sum, the plain float array's inf / nan, or raise ArithmeticError/ValueError; another "
+        "inf / nan there (range_sum = inf - inf = nan behind an inf entry) is a property of every prefix-difference structure, counted in histogram "
+        "fw_nonfinite and reported as KNOWN-FINDING when known_findings.json has an open entry of class " + SOFT_NONFINITE + "; a finite wrong answer fails.",
+        "Float INDICES (update(1.0, d)) and FenwickTree(3.0) raise TypeError in the unchanged code and are outside the property (indices in range are ints); "
+        "int vs integral-float VALUES and DELTAS are mixed freely (families mag-mixed, cancel, a2).",
+        "A2: UnionFind(n) takes no caller object; for FenwickTree the source list is replaced/appended/popped in place while the tree lives (answers "
+        "must not move) and a new tree is built from the same edited list object (must equal a plain array of the edited values).  Histories with a "
+        "rebuild are not sent to Coq.",
+        "W: maxima reached per loop are in histogram loop_max_iterations; update/prefix walks are bounded by floor(log2 n) + 1 (21 at n = 2^20 + 2) and the "
+        "recursion depth of find by floor(log2 n) by construction of the algorithm, so the 2^7.. thresholds are crossed by the linear loops "
+        "(constructor, component loops) and by the number of calls on one object.",
         "UnionFind trees deeper than 3 need >= 16 elements merged through roots; the generators use a naive shadow forest (union by rank, "
         "no compression) only to pick roots / deepest elements, the judge is the label array.  UnionFind histories over more than 128 "
         "elements (chains up to 2000) are judged by the label array only.",
